@@ -752,14 +752,15 @@ def check_timecodec(pid, tier, seed, scratch, replay):
 def check_vtt(pid, tier, seed, scratch, replay):
     return codec_check(pid, tier, seed, scratch, dict(
         name="vtt", gen_module="GenVtt", gen_cfg="GenVtt.cfg", drive_cmd="vtt", trace_module="TraceVtt", trace_cfg="TraceVtt.cfg",
-        mc=[("VttMC", "MC_Vtt_H.cfg", None), ("VttMC", "MC_Vtt_C.cfg", None), ("VttMC", "MC_Vtt_P.cfg", None)],
-        gens=[(dict(GEN_FAM="H"), 2, 2, None), (dict(GEN_FAM="C"), 10, 10, None), (dict(GEN_FAM="P"), 1, 1, None),
+        mc=[("VttMC", "MC_Vtt_H.cfg", None), ("VttMC", "MC_Vtt_C.cfg", None), ("VttMC", "MC_Vtt_P.cfg", None), ("VttMC", "MC_Vtt_N.cfg", None)],
+        gens=[(dict(GEN_FAM="H"), 2, 2, None), (dict(GEN_FAM="C"), 10, 10, None), (dict(GEN_FAM="P"), 1, 1, None), (dict(GEN_FAM="N"), 1, 1, None),
               (dict(GEN_FAM="H", GEN_WIDE=1), 0, 4, "thorough"), (dict(GEN_FAM="C", GEN_WIDE=1), 0, 16, "thorough"), (dict(GEN_FAM="P", GEN_WIDE=1), 0, 4, "thorough")],
         nrand=(0, 0), per_jvm=2500,
-        rule=("TLC enumerates ground truths of three families - H: timestamp map x STYLE block (0-2 lines) x regions (0-2, with "
+        rule=("TLC enumerates ground truths of four families - H: timestamp map x STYLE block (0-2 lines) x regions (0-2, with "
               "lines/width/scroll) x region reference; C: one cue with id present/absent x 0-2 comment lines x 4 cue-setting subsets "
               "x voice x 1-2 runs over 7 tag stacks (depth 0-3, classes, annotation) x inline timestamp, or two lines; P: two cues "
-              "(tag stack / comment / id state between cues) - x every rendering (header trailing text, LF/CRLF/CR, BOM, mm:ss.ttt vs "
+              "(tag stack / comment / id state between cues); N: nesting - 2-3 runs over stacks in which tags of the same name are "
+              "nested (class spans inside class spans, i in b in i), runs leaving only the inner span - x every rendering (header trailing text, LF/CRLF/CR, BOM, mm:ss.ttt vs "
               "hh:mm:ss.ttt, tab vs space before settings, tags closed per run vs shared by proper nesting); each document is "
               "concretised with 4 text pools and read by ReadFromWebVTT; each truth is written by WriteToWebVTT, lexed by the "
               "harness's own lexer, decoded by the TLA+ reference decoder (which also checks that a region is defined before use) "
@@ -878,7 +879,7 @@ def check_writers(pid, tier, seed, scratch, replay):
         require_ok(r, "GenWriters part %d" % p)
         tr = scratch.path("trace.writers.%d.ndjson" % p)
         vlib.run_drive(drive, ["writers", "-cases", out, "-out", tr, "-seed", str(seed + p), "-n0", str(p * 1000000),
-                               "-reps", "8" if thorough else "4", "-procs", "4" if thorough else "2",
+                               "-reps", "50" if thorough else "4", "-procs", "4" if thorough else "2",
                                "-nrand", "60" if thorough else "12", "-orders", "3" if thorough else "1"], timeout=3000)
         return tr
 
@@ -918,7 +919,7 @@ def check_totality(pid, tier, seed, scratch, replay):
     drive = vlib.build_harness(scratch)
     K = 4 if thorough else 3
     jobs = []
-    for kind, parts in (("srt", 2), ("vtt", 8 if thorough else 3), ("ssa", 8 if thorough else 3), ("ttml", 6 if thorough else 2), ("stl", 1)):
+    for kind, parts in (("srt", 2), ("vtt", 14 if thorough else 3), ("ssa", 8 if thorough else 3), ("ttml", 6 if thorough else 2), ("stl", 1)):
         for p in range(parts):
             jobs.append((kind, K, p, parts, None))
     sparts = 16
@@ -928,7 +929,7 @@ def check_totality(pid, tier, seed, scratch, replay):
     def run_gen(job):
         kind, k, p, parts, _ = job
         out = scratch.path("tot.%s.%d.ndjson" % (kind, p))
-        r = tlc(scratch, "GenTotality", "GenTotality.cfg", env=dict(GEN_KIND=kind, GEN_K=k, GEN_PART=p, GEN_PARTS=parts, GEN_OUT=out), heap="3g", timeout=2400)
+        r = tlc(scratch, "GenTotality", "GenTotality.cfg", env=dict(GEN_KIND=kind, GEN_K=k, GEN_PART=p, GEN_PARTS=parts, GEN_OUT=out), heap="3g", timeout=5400)
         require_ok(r, "GenTotality %s part %d" % (kind, p))
         tr = scratch.path("trace.tot.%s.%d.ndjson" % (kind, p))
         vlib.run_drive(drive, ["totality", "-cases", out, "-out", tr, "-n0", str((hash(kind) % 50) * 10000000 + p * 1000000)], timeout=3000)
